@@ -967,9 +967,11 @@ def _item_expr(item):
     return _ITEM_TYPE[k], item['s']
 
 
-def evaluate(case, roots, reading=None, cleanup_cut=None) -> Outcome:
+def evaluate(case, roots, reading=None, cleanup_cut=None, here_dirs=None) -> Outcome:
     """Values observed when an accepted program is executed.  roots: home act-home act tmp result cd here -> dir.
-    cleanup_cut (defect model KF-C08-2 only): [cleanup] is given up at the item with this index."""
+    cleanup_cut (defect model KF-C08-2 only): [cleanup] is given up at the item with this index.
+    here_dirs: {(phase, index): directory relative to roots['here']} of the items that are written in a file of another
+    directory than the test case ("-rel-here: the location of the current source file")."""
     reading = reading or DEFAULT_READING
     out = Outcome()
     table = {n: Entry(t, [], None, builtin=True) for n, t in BUILTIN_TYPES.items()}
@@ -987,7 +989,7 @@ def evaluate(case, roots, reading=None, cleanup_cut=None) -> Outcome:
         table[n_].root = r_
     out.table = table
     out.cleanup_cut = cleanup_cut
-    ev = _Evaluator(table, roots, out)
+    ev = _Evaluator(table, dict(roots), out)
     act_stdin = []  # texts given by `stdin = TEXT-SOURCE` in setup
 
     state = {'stopped': None}
@@ -1085,6 +1087,7 @@ def evaluate(case, roots, reading=None, cleanup_cut=None) -> Outcome:
     # also when the instructions between a failing instruction and [cleanup] are not executed.  Skipped instructions
     # are interpreted all the same (values of the symbols, value-validated arguments) but leave no observation.
     for phase, idx, item in usages(case):
+        ev.roots['here'] = _join(roots['here'], (here_dirs or {}).get((phase, idx), ''))
         stopped = state['stopped']
         skipped = (stopped is not None and (phase != 'cleanup' or stopped == 'cleanup')
                    or (cleanup_cut is not None and phase == 'cleanup' and idx >= cleanup_cut))
